@@ -51,6 +51,12 @@ CLAIMED.update({
                 note="Trusted: z3, SymRef model, the positional-correspondence oracle. Skeletons: flat, nested region, 2-block CFG, forward reference, graph region, single op with region; <=3 ops, 2 blocks."),
 })
 
+CLAIMED.update({
+    "C02": dict(cat="other", design="DESIGN.md §4 C02",
+                text="Every clone entry point (Operation.clone, clone_without_regions, Region.clone, Region.clone_into at each index into empty/non-empty destinations, shared-mapper reuse, ModulePass.apply_to_clone) runs on source skeletons whose operand/successor wirings range over {earlier inside value, LATER inside value (forward reference), enclosing-block value, outside value/block} (all combinations, enumerated by forks of the exploration) and whose attribute/property payloads and type widths are symbolic; an independent positional-isomorphism oracle, source/destination snapshots, a use-list consistency walk and a mutate-the-copy independence test are evaluated, payload agreement decided by z3.",
+                note="Wirings are an enumerated shape dimension (the clone code hashes values, which concretises references); payloads are the solver's dimension. Skeletons: 2 blocks, 4 ops, one nested region; destinations with 0-2 existing blocks."),
+})
+
 NOT_APPLICABLE = {
     "C05": "custom assembly formats: the quantifier is over ~80 dialects' op definitions/format programs; no data dimension for a solver beyond what C04/C06 cover for leaves (DESIGN §5)",
     "C17": "pass x corpus-module cross product: deciding it means running each pair concretely; no symbolic dimension (DESIGN §5)",
